@@ -13,7 +13,7 @@ from symx.harness import Session
 from symx.scalar import SymReal
 
 PID = "C13"
-LEVEL = "other"
+LEVEL = "model_checking"
 CLAIM = (
     "Bounded symbolic verification of tf_pwa.particle.GetA2BC_LS_list executed on symbolic spins and parities by a path-forking "
     "executor (doubled spins as symbolic integers in [0,8], parities +-1, p_break, optional C-parity): on every feasible path z3 "
